@@ -53,6 +53,18 @@ class WithNewArgs(Exception):
     super().__init__(code)
 
 
+class WithKwOnlyNew(Exception):
+  """Its __new__ wants a keyword that `args` does not carry: no proxy instance can be built."""
+
+  def __new__(cls, *, code):
+    self = super().__new__(cls)
+    self.code = code
+    return self
+
+  def __init__(self, *, code):
+    super().__init__('code %s' % code)
+
+
 class WithSlots(Exception):
   __slots__ = ('slot_a', 'slot_b')
 
@@ -127,7 +139,7 @@ def universe():
     else:
       fac = lambda c=cls: c('message', 42)
     out.append((name, fac))
-  out += [('user:WithInitArgs', lambda: WithInitArgs(4, 'detail')), ('user:WithNewArgs', lambda: WithNewArgs(9)),
+  out += [('user:WithInitArgs', lambda: WithInitArgs(4, 'detail')), ('user:WithNewArgs', lambda: WithNewArgs(9)), ('user:WithKwOnlyNew', lambda: WithKwOnlyNew(code=3)),
           ('user:WithSlots', lambda: WithSlots('a', 'b')), ('user:WithStr', lambda: WithStr(6)),
           ('user:SubOSError', lambda: SubOSError(13, 'denied', 'f')), ('user:BaseOnly', lambda: BaseOnly('b')),
           ('user:Reloaded#1', lambda: _DUPS[0]('first')), ('user:Reloaded#2', lambda: _DUPS[1]('second')),
@@ -153,6 +165,10 @@ def storage_of(exc, name):
 
 def ctor_kind(exc):
   cls = type(exc)
+  try:
+    cls.__new__(cls, *exc.args)
+  except Exception:  # pylint: disable=broad-except
+    return 'unproxiable'       # no second instance can be built from the original's args
   try:
     cls.__new__(cls)
     return 'none'
@@ -271,6 +287,12 @@ def observe(label, factory, depth, site, scopes):
   if not text.startswith(str(original)):
     fails.append((dict(clause='message-prefix'), '%r does not start with %r' % (text[:80], str(original)[:80])))
   pos = 0
+  if ctor == 'unproxiable':
+    if 'In call to configurable' in text:
+      fails.append((dict(clause='message-suffix'), 'an exception that cannot be proxied arrived with an extended message: %r' % text[-200:]))
+    if caught is not original:
+      fails.append((dict(clause='class', ctor=ctor), 'an exception that cannot be proxied must arrive as the original object'))
+    return fails
   for conf, scope in expected_frames:
     needle = "In call to configurable '%s'" % conf
     i = text.find(needle, pos)
